@@ -52,7 +52,14 @@ def extra_set():
              D.date(1999, 12, 31)]
     aware_u = [x.replace(tzinfo=utc) for x in naive[3:]]
     aware_o = [x.replace(tzinfo=off) for x in naive[3:]]
-    return naive, dates, aware_u, aware_o
+    # one zone with DST, wall times on both sides of (and close to) its transitions: the difference is a
+    # wall-clock one, so the inverse law must hold across the offset change as well
+    ny = tz.gettz('America/New_York') or tz.tzstr('EST5EDT,M3.2.0,M11.1.0')
+    walls = [D.datetime(2024, 3, 9, 12), D.datetime(2024, 3, 10, 1, 59, 59), D.datetime(2024, 3, 10, 3, 0), D.datetime(2024, 3, 11, 2, 30),
+             D.datetime(2024, 11, 2, 1, 30), D.datetime(2024, 11, 3, 0, 30), D.datetime(2024, 11, 3, 3, 0, 0, 1), D.datetime(2024, 11, 4, 1, 30),
+             D.datetime(2023, 11, 5, 12), D.datetime(2025, 3, 9, 12), D.datetime(2024, 7, 31, 23, 59, 59, 999999), D.datetime(2024, 1, 31)]
+    aware_d = [w.replace(tzinfo=ny) for w in walls]
+    return naive, dates, aware_u, aware_o, aware_d
 
 
 def check_pair(a, b):
@@ -121,8 +128,8 @@ def eval_row(case):
                 x.update(dt1=a, dt2=b)
                 viols.append(x)
     else:
-        naive, dates, au, ao = _get('X')
-        groups = [naive + dates, au, ao, naive + _get('B')[::97], dates + _get('W')[::61]]
+        naive, dates, au, ao, ad = _get('X')
+        groups = [naive + dates, au, ao, naive + _get('B')[::97], dates + _get('W')[::61], ad]
         G = groups[i]
         for a in G:
             for b in G:
@@ -172,7 +179,7 @@ def run(ctx):
     rows_w = list(range(len(W)))
     ctx.explore('boundary-pairs', [('B', i) for i in rows_b], 'eval_row', chunk=8, setup_arg=ctx.thorough)
     ctx.explore('window-day-pairs', [('W', i) for i in rows_w], 'eval_row', chunk=8, setup_arg=ctx.thorough)
-    ctx.explore('mixed-aware-edges', [('X', i) for i in range(5)], 'eval_row', chunk=1, setup_arg=ctx.thorough)
+    ctx.explore('mixed-aware-edges', [('X', i) for i in range(6)], 'eval_row', chunk=1, setup_arg=ctx.thorough)
     ctx.coverage_extra.update({
         'states': ctx.counts['pairs'],
         'traces_validated_against_impl': ctx.counts['pairs'],
